@@ -31,7 +31,7 @@ ASSUMPTIONS = [
     'memoisation inside the model is legitimate: only results are judged',
 ]
 OPS = ('calc', 'calc_x', 'calc_o', 'compile', 'to_dict', 'write', 'deepcopy',
-       'dill', 'calc_x', 'calc')
+       'dill', 'calc_x', 'calc', 'calc_same', 'compile_same')
 
 
 def _name_id(desc, name):
@@ -147,6 +147,30 @@ def apply_op(op, model, desc, rng, ctx):
     forms = wbrun.formula_cells(desc)
     if op == 'calc':
         model.calculate()
+    elif op in ('calc_same', 'compile_same'):
+        # the targets of the observed calculation, overridden earlier with
+        # other values (by a calculation or by a compiled function)
+        def redraw(v):
+            if isinstance(v, list):
+                return [[rng.choice(wbrun.VALUE_POOL[:10]) for _ in row] for row in v]
+            return rng.choice(wbrun.VALUE_POOL)
+        X = [[x[0], x[1], redraw(x[2])] for x in _ARGS.get('X') or ()]
+        if op == 'compile_same':
+            X = [x for x in X if x[0] != 'formula-cell' and (
+                x[0] != 'name' or desc['names'][x[1][0]][0] == 'cell')]
+        inp = to_inputs(desc, X)
+        if op == 'calc_same':
+            model.calculate(inputs=inp)
+        else:
+            outs = [wbrun.node_key(desc, k) for k in rng.sample(
+                forms, min(len(forms), rng.randint(1, 3)))]
+            ids = [i for i in inp if i in model.dsp.nodes]
+            outs = [o for o in outs if o in model.dsp.nodes and o not in ids]
+            if ids and outs:
+                try:
+                    model.compile(ids, outs)(*[inp[i] for i in ids])
+                except Exception:
+                    ctx.count('history.compile-raised')
     elif op == 'calc_x':
         model.calculate(inputs=to_inputs(desc, op_args(rng, desc)))
     elif op == 'calc_o':
@@ -194,6 +218,7 @@ def check_history(case, ctx):
     sink.case = {'kind': 'history', 'id': case.get('id')}
     probes.set_sink(sink)
     rng = random.Random('fvmon/C07/hist/%s' % case['id'])
+    _ARGS['X'] = case['X']
     try:
         live = wbrun.load_dict(desc)
         fresh = wbrun.load_dict(desc)
@@ -285,7 +310,13 @@ def check_history(case, ctx):
             stale.add(k)
     tainted = wbrun.downstream(desc, stale) if stale else set()
     unpop = {k for k in via_range if k not in ev0_cells and k not in ev.owner}
+    # the open finding is about members that have a (blank) node of their
+    # own; a member that no node defines is written into the solution by the
+    # range's inverse and is seen everywhere
+    unpop_free = {k for k in unpop if gw.key_of(desc, *k) not in fresh.dsp.nodes}
+    unpop = unpop - unpop_free
     tainted2 = wbrun.downstream(desc, unpop) if unpop else set()
+    tainted3 = (wbrun.downstream(desc, unpop_free) if unpop_free else set()) - tainted2
 
     def annotate(key):
         if key in stale:
@@ -305,11 +336,54 @@ def check_history(case, ctx):
             return {'_tag': 'downstream-of-unpopulated-member:',
                     'downstream_of_unpopulated_member': sorted(
                         gw.key_of(desc, *k) for k in unpop)[:6]}
+        if key in tainted3:
+            return {'_tag': 'downstream-of-nodeless-unpopulated-member:',
+                    'downstream_of_nodeless_unpopulated_member': sorted(
+                        gw.key_of(desc, *k) for k in unpop_free)[:6]}
         return {}
     wbrun.compare_with_reference(desc, obs2, ctx, 'reference:' + kinds, {
         'kind': 'history', 'id': case['id'], 'desc': desc, 'history': [],
         'X': X, 'O': case['O']}, ref=ev, annotate=annotate, skip=skip)
     ctx.count('monitor.reference')
+    # (2b) a value supplied through a range / name for a member that no node
+    # defines is part of the returned solution, like a constant would be
+    inv_ranges = set()
+    try:
+        import schedula as sh_
+        from formulas.cell import InvRangesAssembler
+        for nd in fresh.dsp.function_nodes.values():
+            f = nd['function']
+            if isinstance(f, InvRangesAssembler) and sh_.SELF in nd['inputs']:
+                inv_ranges.add(f.assembler.output)
+    except Exception:
+        pass
+    checked = set()
+    for x in X:
+        # only ranges whose inverse takes the dispatcher (>= 2 members without
+        # a node, >= 1 member with one) write the supplied values back
+        if x[0] == 'range':
+            rect = list(x[1])
+        elif x[0] == 'name' and desc['names'][x[1][0]][0] == 'rng':
+            rect = list(desc['names'][x[1][0]][1:7])
+        else:
+            continue
+        if gw.rect_key(desc, *rect) not in inv_ranges:
+            continue
+        b_, s_, c1, r1, c2, r2 = rect
+        checked |= {(b_, s_, c, r) for c in range(c1, c2 + 1) for r in range(r1, r2 + 1)}
+    checked &= unpop_free
+    if checked and not mode:
+        ctx.count('monitor.nodeless-member-in-solution')
+        for k in sorted(checked):
+            got = _cell_of(desc, sol_fresh, k)
+            want = ov[k]
+            if want == xl.BLANK or want == xl.c_text(''):
+                continue
+            if not xl.same(got, want):
+                ctx.violation('supplied-member-value-not-in-solution:%s' % kinds, dict(
+                    w, cell=gw.key_of(desc, *k), observed=xl.show(got),
+                    accepted=[xl.show(want)]))
+                break
     # (3) an overridden formula cell is not re-evaluated
     over_nodes = {gw.key_of(desc, *x[1]) for x in X if x[0] == 'formula-cell'}
     if over_nodes:
@@ -357,7 +431,7 @@ def _cell_of(desc, sol, key):
 def make_case(seed, i, tier):
     rng = random.Random('fvmon/C07/%s/%s' % (seed, i))
     desc = gw.gen(rng)
-    if i % 5 == 0:
+    if i % 5 in (0, 3):
         _sparsify(rng, desc)
     if i % 4 == 1:
         _name_and_target(rng, desc)
@@ -368,6 +442,33 @@ def make_case(seed, i, tier):
         return None
     hist = [rng.choice(OPS) for _ in range(rng.randint(0, 8))]
     X = gen_overrides(rng, desc)
+    if i % 5 == 3:
+        # a sparse rectangle (several members that no node defines) is among
+        # the overridden ranges
+        ev = rw.Evaluator(desc)
+        sparse = [r for r in _rect_nodes(desc)[:3] if 2 <= sum(
+            1 for c in range(r[2], r[4] + 1) for rr in range(r[3], r[5] + 1)
+            if not ev.populated((r[0], r[1], c, rr))) < (r[4] - r[2] + 1) * (r[5] - r[3] + 1)]
+        if sparse:
+            b, s, c1, r1, c2, r2 = r = rng.choice(sparse)
+            cells = {(b, s, c, rr) for c in range(c1, c2 + 1) for rr in range(r1, r2 + 1)}
+            keep = []
+            for x in X:
+                o = to_ref_overrides(desc, [x])
+                if not cells & set(o):
+                    keep.append(x)
+            X = keep + [['range', list(r), [[rng.choice(wbrun.VALUE_POOL[:8])
+                                            for _ in range(c1, c2 + 1)]
+                                           for _ in range(r1, r2 + 1)]]]
+    if desc.get('focus_ranges') and i % 2 == 0:
+        # a rectangle that strictly contains an array formula is overridden
+        b, s, c1, r1, c2, r2 = r = rng.choice(desc['focus_ranges'])
+        cells = {(b, s, c, rr) for c in range(c1, c2 + 1) for rr in range(r1, r2 + 1)}
+        X = [x for x in X if not cells & set(to_ref_overrides(desc, [x]))]
+        X.append(['range', list(r), [[float(rng.randint(1, 90)) for _ in range(c1, c2 + 1)]
+                                     for _ in range(r1, r2 + 1)]])
+        hist = hist + [rng.choice(('calc_same', 'compile_same', 'calc_same'))] + \
+            [rng.choice(OPS) for _ in range(rng.randint(0, 2))]
     O = [list(k) for k in rng.sample(forms, min(len(forms), rng.randint(1, 3)))]
     return {'kind': 'history', 'id': '%s/%s' % (seed, i), 'desc': desc,
             'history': hist, 'X': X, 'O': O,
@@ -546,7 +647,8 @@ def finalize(agg, tier):
                      ('override.name', 10), ('monitor.not-reevaluated', 10),
                      ('contract.value.cache', 100), ('monitor.circular-twin', 300),
                      ('override-values-as-Ranges.own', 20),
-                     ('override-values-as-Ranges.other', 20)):
+                     ('override-values-as-Ranges.other', 20),
+                     ('monitor.nodeless-member-in-solution', 8)):
         if c.get(k, 0) < floor:
             inc.append('monitor %s saw %d events (< %d)' % (k, c.get(k, 0), floor))
     return {'inconclusive': inc, 'coverage': {
